@@ -89,5 +89,15 @@ def run(ctx, tier):
     gcodes = gcodes_to_analyse(ctx.model)
     run_path_rules(ctx, __name__, 'path_rules', gcodes, unroll=2 if tier == 'thorough' else 1,
                    debug_logging=(tier == 'thorough'))
+    # the region predicates are evaluated as opaque tests on the handler paths: that they answer (and never raise) for every
+    # point is decided on their own bodies (C17.R1 / R2; a float power, for example, raises OverflowError where a product is inf)
+    from . import rules_c17
+    from .entries import make_interp
+    ctx.rule('C17.R1', 'C17: containsPoint is exactly the closed rectangle / closed disc test - and answers for every point', floor=2)
+    ctx.rule('C17.R2', 'C17: the constructors normalise the corners / keep the radius and never raise on numbers', floor=2)
+    I17 = make_interp(ctx.model, modular=False)
+    I17.merge_ifs = False
+    rules_c17.point_rules(ctx, I17)
+    rules_c17.ctor_rules(ctx, I17)
     ctx.assume('axes are homed (tracked positions are numbers, not None) - as in the property quantifier')
     ctx.assume('GcodeParser behaves as its verified summary (C18/C19 rules)')
